@@ -204,7 +204,7 @@ class Ctx:
             raise Broken("vdrive %s printed no report:\n%s\n%s" % (subcmd, out[-1000:], err[-2000:]))
         self.cov["replayed_behaviours"] += rep.get("behaviours", 0)
         self.cov["evaluations"] += rep.get("steps", 0)
-        self.cov["distinct_nontrivial"] += rep.get("distinct", rep.get("behaviours", 0))
+        self.cov["distinct_nontrivial"] += rep.get("distinct") or rep.get("behaviours", 0)
         for s in rep.get("samples") or []:
             self.sample({"replay": what, "case": s})
         for m in rep.get("mismatches", []):
